@@ -58,7 +58,7 @@ type Runner struct {
 
 	// scenario-local (Run works on a private copy of the Runner)
 	orderSeed uint64
-	procSeq   int
+	stepSeq   int
 	plan2     *simos.Rule // second rule of the next faulty process
 }
 
@@ -215,9 +215,11 @@ func (r *Runner) runMoq(cwd string, args []string, plan *simos.Rule, tmp string)
 
 func (r *Runner) runMoqTo(cwd string, args []string, plan *simos.Rule, tmp string, stdoutPath string) procResult {
 	env := append([]string(nil), r.Env...)
-	r.procSeq++
-	// each process iterates its maps in its own, reproducible order
-	env = append(env, fmt.Sprintf("SIMHOOK_SEED=%d", r.orderSeed*1000003+uint64(r.procSeq)))
+	// the processes of one step (the run, its stdout-mode references) iterate
+	// their maps in the same reproducible order, those of another step in
+	// another one: an order dependence (C14's business) then shows as a
+	// repetition that differs, not as a file that differs from its reference
+	env = append(env, fmt.Sprintf("SIMHOOK_SEED=%d", r.orderSeed*1000003+uint64(r.stepSeq)))
 	logPath := filepath.Join(tmp, "oplog.jsonl")
 	os.Remove(logPath)
 	env = append(env, "SIMOS_LOG="+logPath)
@@ -563,6 +565,7 @@ func (shared *Runner) Run(sc *Scenario, id string) ([]Finding, *Stats, error) {
 func (r *Runner) runStep(sc *Scenario, i int, step Step, w *world, M, srcDir, outAbs, outRel, tmp string, st *Stats,
 	add func(step int, prop, class, site, format string, a ...any), tr func(format string, a ...any)) {
 	pl := sc.Place
+	r.stepSeq = i + 1
 	useOut := !step.Stdout
 	var base []string
 	base = append(base, step.Flags...)
@@ -695,6 +698,22 @@ func (r *Runner) runStep(sc *Scenario, i int, step Step, w *world, M, srcDir, ou
 	r.plan2 = step.Fault2
 	act := r.runMoq(cwdIn(M), args, step.Fault, tmp)
 	r.plan2 = nil
+	// priorMatters: the very same -out command, run where nothing is at the
+	// -out path (the reference copy, from which -rm's target was removed),
+	// yields the reference output - so what was there before made the difference
+	// (C15's business); otherwise the cause does not depend on the prior content
+	priorMatters := func() bool {
+		a2 := append([]string(nil), args...)
+		for k := range a2 {
+			if a2[k] == outAbs {
+				a2[k] = filepath.Join(refRoot, outRel)
+			}
+		}
+		res := r.runMoq(cwdIn(refRoot), a2, nil, tmp)
+		st.MoqRuns++
+		got, err := os.ReadFile(filepath.Join(refRoot, outRel))
+		return res.Exit == 0 && err == nil && bytes.Equal(got, ref.Stdout)
+	}
 	st.MoqRuns++
 	post := snapshot(M)
 	fired := firedFaults(act.Log)
@@ -776,7 +795,7 @@ func (r *Runner) runStep(sc *Scenario, i int, step Step, w *world, M, srcDir, ou
 			add(i, "C17", "success-without-file", "", "%s exited 0 but %s does not exist", cmdline, pl.Out)
 		} else if !bytes.Equal(postBytes, ref.Stdout) && !r.equalsRefWithoutPrior(step, preExists, preIsDir, refRoot, cwdIn(refRoot), outRel, refArgs, tmp, postBytes, st) {
 			prop, class := "C17", "success-incomplete-or-different-file"
-			if step.Rm && w.prior != "absent" {
+			if step.Rm && w.prior != "absent" && priorMatters() {
 				prop, class = "C15", "rm-result-depends-on-prior-content"
 			}
 			add(i, prop, class, "prior="+w.prior, "%s exited 0 but %s (%d bytes) differs from what the same command prints to stdout from the same state%s (%d bytes)",
@@ -800,7 +819,7 @@ func (r *Runner) runStep(sc *Scenario, i int, step Step, w *world, M, srcDir, ou
 		if refOK && len(fired) == 0 && pl.Writable && !mustFail && !w.readonly && (step.Rm || w.prior == "absent" || w.prior == "own" || w.prior == "stale") {
 			// nothing failed that we know of, stdout mode works: -out mode must too
 			prop, class := "C17", "unexpected-failure"
-			if step.Rm && w.prior != "absent" {
+			if step.Rm && w.prior != "absent" && priorMatters() {
 				prop, class = "C15", "rm-did-not-neutralise-prior-content"
 			}
 			add(i, prop, class, "prior="+w.prior, "%s exited %d (%s) although the same command without -out succeeds from the same state", cmdline, act.Exit, firstLine(act.Stderr))
@@ -949,7 +968,7 @@ func describeOut(exists bool, got, ref []byte) string {
 
 func sameCommand(a, b Step) bool {
 	return strings.Join(a.Flags, " ") == strings.Join(b.Flags, " ") && strings.Join(a.Names, " ") == strings.Join(b.Names, " ") &&
-		a.Stdout == b.Stdout && a.NoArgs == b.NoArgs
+		a.Stdout == b.Stdout && a.NoArgs == b.NoArgs && a.Rm == b.Rm
 }
 
 func mutating(e simos.LogEntry) bool {
@@ -993,12 +1012,22 @@ func transientSibling(e simos.LogEntry, M string, pre map[string]fileState, outA
 		if p == "" || p == outAbs || p == outReal {
 			return true
 		}
-		d := filepath.Dir(p)
-		if d != filepath.Dir(outAbs) && (outReal == "" || d != filepath.Dir(outReal)) {
-			return false
+		// the first path element below -out's directory (a sibling file, or a
+		// staging directory and whatever is put into it) must be new
+		for _, base := range []string{filepath.Dir(outAbs), filepath.Dir(outReal)} {
+			if base == "." || base == "" {
+				continue
+			}
+			rel, err := filepath.Rel(base, p)
+			if err != nil || rel == "." || strings.HasPrefix(rel, "..") {
+				continue
+			}
+			first := strings.SplitN(rel, string(filepath.Separator), 2)[0]
+			if _, existed := pre[relTo(M, filepath.Join(base, first))]; !existed {
+				return true
+			}
 		}
-		_, existed := pre[relTo(M, p)]
-		return !existed
+		return false
 	}
 	return ok(e.Path) && ok(e.Path2)
 }
